@@ -32,7 +32,8 @@ P_FIELDS = (
     Field("w", 9, "wrap:int32"), Field("e", 10, "enum:Color"),
     Field("em", 11, "msg:Empty"),   # a sub-message type without fields
 )
-SCHEMA = Schema("vfc14", (COLOR,), LIB_MSGS + (Msg("M", M_FIELDS), Msg("P", P_FIELDS)))
+S_FIELDS = (Field("a", 1, "int32"), Field("s", 2, "string"), Field("d", 3, "double"), Field("f", 4, "float"))
+SCHEMA = Schema("vfc14", (COLOR,), LIB_MSGS + (Msg("M", M_FIELDS), Msg("P", P_FIELDS), Msg("S", S_FIELDS)))
 
 INIT_VALUES: List[Dict[str, Any]] = [
     {},
@@ -286,6 +287,61 @@ def _sfx(history) -> List[str]:
     return ["lazy-init"] if history and history[0][0] == "init" and history[0][2] == "lazy" else []
 
 
+def scalar_only_inputs() -> List[Tuple[str, bytes]]:
+    """Encodings of the scalar-only message S that this library would not write itself: other field
+    order, an explicit default, a repeated singular field, unknown fields in between, padded varints."""
+    import struct
+    a = wire.make_rec(1, wire.VARINT, 5).raw
+    s = wire.make_rec(2, wire.LEN, b"xy").raw
+    d = wire.make_rec(3, wire.FIXED64, struct.pack("<d", 0.1)).raw
+    f = wire.make_rec(4, wire.FIXED32, struct.pack("<f", 0.1)).raw
+    u1, u2 = wire.make_rec(9, wire.VARINT, 1).raw, wire.make_rec(10, wire.LEN, b"q").raw
+    return [
+        ("canonical", a + s + d + f), ("reordered", f + d + s + a), ("explicit-default", wire.make_rec(1, wire.VARINT, 0).raw + s),
+        ("duplicate-singular", wire.make_rec(1, wire.VARINT, 9).raw + s + a), ("unknown-between", a + u1 + s + u2 + d),
+        ("padded-varint", wire.make_rec(1, wire.VARINT, 5, val_pad=3).raw + s), ("empty", b""), ("unknown-only", u2 + u1),
+    ]
+
+
+def check_scalar_only(t) -> List[Violation]:
+    """A message class with scalar fields only, decoded from each of those inputs, then observed,
+    copied, deep-copied and pickled: copies are equal to it and encode to identical bytes."""
+    sp = space()
+    S = sp.ns.S
+    out: List[Violation] = []
+    for label, data in scalar_only_inputs():
+        for pre in ([], ["bytes"], ["len", "to_dict"], ["eq"]):
+            for cop in COPIERS:
+                t.inc("scalar_only_cases")
+                try:
+                    m = S().parse(data)
+                    first = bytes(m)
+                    for o in pre:
+                        {"bytes": lambda: bytes(m), "len": lambda: len(m), "to_dict": lambda: m.to_dict(), "eq": lambda: m == S()}[o]()
+                    c = copy.copy(m) if cop == "copy" else copy.deepcopy(m) if cop == "deepcopy" else pickle.loads(pickle.dumps(m))
+                    problems = []
+                    if bytes(m) != first:
+                        problems.append(f"observers {pre} changed the encoding {first.hex()} -> {bytes(m).hex()}")
+                    if bytes(c) != bytes(m):
+                        problems.append(f"{cop} encodes {bytes(c).hex()}, the original {bytes(m).hex()}")
+                    if not (c == m and m == c):
+                        problems.append(f"{cop} is not equal to the original")
+                    if len(c) != len(bytes(c)) or len(m) != len(bytes(m)):
+                        problems.append("len() disagrees with bytes()")
+                except Exception as e:
+                    problems = [f"{type(e).__name__}: {e}"]
+                for p in problems[:1]:
+                    out.append(Violation(["purity", "scalar-only", cop, label], f"S parsed from {data.hex()} ({label}), observers {pre}: {p}"[:400],
+                                         {"scalar_only": label, "copier": cop}))
+    seen, uniq = set(), []
+    for v in out:
+        k = tuple(v.signature)
+        if k not in seen:
+            seen.add(k)
+            uniq.append(v)
+    return uniq
+
+
 _SP: Dict[str, ObsSpace] = {}
 
 
@@ -360,6 +416,11 @@ def run(ctx: Ctx) -> None:
     tseq = merge_tallies(pmap_shards(_shard_sequences, 64, 2 if ctx.quick else 3))
     for vj in tseq.violations:
         ctx.add(Violation.from_json(vj))
+    from vf.core.runner import Tally as _T
+    ts = _T()
+    for v in check_scalar_only(ts):
+        ctx.add(v)
+    ctx.coverage.update(scalar_only_cases=ts.n.get("scalar_only_cases", 0))
     t = res["tally"]
     for vj in t.violations:
         ctx.add(Violation.from_json(vj))
@@ -388,6 +449,9 @@ def run(ctx: Ctx) -> None:
 
 
 def replay(case: dict) -> List[Violation]:
+    if "scalar_only" in case:
+        from vf.core.runner import Tally as _T
+        return [v for v in check_scalar_only(_T()) if v.case == case]
     sp = space()
     hist = case["history"]
     try:
